@@ -320,6 +320,41 @@ def revise_model(ctx, W, d, t, kinds=("add_effect", "drop_disjunct")):
     from pddl_plus_parser.models import Predicate
     from pddl_plus_parser.models.pddl_precondition import Precondition
     kind = kinds[t.draw(len(kinds))]
+    if kind == "reparent_type":
+        # a type with descendants gets another parent (e.g. vehicle - object becomes vehicle - movable): the subtype
+        # relation of every descendant changes with it
+        types = W.D["types"]
+        implicit = W.D.get("implicit_types", ())
+        cands = [n for n in types if n != "agent" and n not in implicit and any(p_ == n for p_ in types.values())]
+        if not cands:
+            return None
+        ty = cands[t.draw(len(cands))]
+
+        def descends(a, b):  # a is b or below b
+            n = 0
+            while a != "object" and n < 50:
+                if a == b:
+                    return True
+                a = types.get(a, "object")
+                n += 1
+            return False
+        # the new parent lies below the old one, so every subtype relation that held still holds (the problem's facts and
+        # the actions stay well typed) and new ones are added
+        old_parent = types[ty]
+        targets = [n for n in types if n != old_parent and n != "agent" and n not in implicit and not descends(n, ty)
+                   and (old_parent == "object" or descends(n, old_parent))]
+        if not targets:
+            return None
+        newp = targets[t.draw(len(targets))]
+        d.types[ty].parent = d.types[newp]
+        D2 = copy.deepcopy(W.D)
+        D2["types"][ty] = newp
+        W2 = copy.copy(W)
+        W2.D = D2
+        W2.objs = G.all_objects(D2, W.P)
+        W2.dom_text = W2.dom_text_plain = G.render_domain(D2, child_first=True)
+        ctx.probes["model_revised_reparent_type"] += 1
+        return W2, f"type {ty}: parent {types[ty]} -> {newp}"
     names = sorted(W.D["actions"])
     aname = names[t.draw(len(names))]
     act = W.D["actions"][aname]
@@ -339,8 +374,10 @@ def revise_model(ctx, W, d, t, kinds=("add_effect", "drop_disjunct")):
         what = f"{aname}: effect {G.r_e(e)} added"
     else:
         # a nested disjunction with at least two plain literals
+        # (at least two DIFFERENT literals: the library keeps one copy of a repeated literal, and an emptied
+        # disjunction is not a shape PDDL text can express)
         spots = [(i, x) for i, x in enumerate(act["pre"][1]) if x[0] == "or"
-                 and sum(1 for y in x[1] if y[0] in ("atom", "not")) >= 2]
+                 and len({repr(y) for y in x[1] if y[0] in ("atom", "not")}) >= 2]
         if not spots:
             return None
         i, disj = spots[t.draw(len(spots))]
@@ -360,7 +397,7 @@ def revise_model(ctx, W, d, t, kinds=("add_effect", "drop_disjunct")):
         if target is None:
             return None
         lib_act.preconditions.remove_condition(target)
-        new_disj = ("or", [y for y in disj[1] if y is not lit])
+        new_disj = ("or", [y for y in disj[1] if y != lit])
         pre = list(D2["actions"][aname]["pre"][1])
         pre[i] = new_disj
         D2["actions"][aname]["pre"] = ("and", pre)
